@@ -283,6 +283,8 @@ def conform(spec, cfg_text, runs, tp, name, workers=1):
     cmpk = spec.get("cmp", CONF_CMP)
     proj = spec.get("project", lambda e: dict(e=e["e"], k=e["k"], s=e["s"], id=e["id"], q=e["q"], r=e["r"]))
     cand = [r for r in runs if r.get("tokens") is not None and r.get("variant") in spec.get("variants", (None,))]
+    if name.endswith("_noconf"):
+        cand = []
     if not cand:
         return dict(runs=0, ok=0, stuck=[], steps=0)
     evs = events_by_cmd(tp)
@@ -299,7 +301,7 @@ def conform(spec, cfg_text, runs, tp, name, workers=1):
             for i in range(len(toks)):
                 es = []
                 for c in range(bounds[i], bounds[i + 1]):
-                    es += [proj(e) for e in evs.get(r["run"], {}).get(c, []) if e["e"] in cmpk]
+                    es += [proj(e) for e in evs.get(r["run"], {}).get(c, []) if e["e"] in cmpk and not spec.get("drop", lambda e, r: False)(e, r)]
                 # wire output is observed at quiescence: its position among the other events is an artefact
                 per.append([e for e in es if e["e"] != "out"] + [e for e in es if e["e"] == "out"])
             f.write(json.dumps(dict(run=r["run"], toks=[spec["tok2rec"](t) for t in toks], evs=per), separators=(",", ":")) + "\n")
